@@ -79,7 +79,7 @@ func c30Reset(n int) string {
 			if t.pc != 0 {
 				select {
 				case <-t.done:
-				case <-time.After(2 * time.Second):
+				case <-time.After(30 * time.Second):
 				}
 			}
 		}
@@ -300,7 +300,7 @@ func c30AgentRun(f []string) string {
 			select {
 			case <-w.done:
 				dp, w.waiting = "returned", false
-			case <-time.After(10 * time.Second):
+			case <-time.After(120 * time.Second):
 				dp = "still-waiting"
 			}
 		}
@@ -315,7 +315,7 @@ func c30AgentRun(f []string) string {
 				defer close(done)
 				_ = w.a.VerifC30DoPoll()
 			}(w.done)
-			for deadline := time.Now().Add(10 * time.Second); !w.a.VerifC30InPoll(); {
+			for deadline := time.Now().Add(120 * time.Second); !w.a.VerifC30InPoll(); {
 				if time.Now().After(deadline) {
 					return st("stuck")
 				}
@@ -335,7 +335,7 @@ func c30AgentRun(f []string) string {
 			return st("parked")
 		case <-w.done:
 			return st("returned")
-		case <-time.After(10 * time.Second):
+		case <-time.After(120 * time.Second):
 			return st("stuck")
 		}
 	case "dprelease":
@@ -434,7 +434,7 @@ func c30Run(line string) string {
 		return c30Out(w, "disabled")
 	}
 	t := w.th[i]
-	const limit = 5 * time.Second
+	const limit = 120 * time.Second
 	switch f[0] {
 	case "begin":
 		if t.pc != 0 {
